@@ -17,7 +17,7 @@ structure Slot where
 structure St where
   size : Int := 0
   pages : Array Page := #[]
-  hdrs : List (Int × ByteArray) := []       -- (serial, packet) in order
+  hdrs : List (Int × ByteArray) := []       -- (offset of the stream's BOS page, packet) in order
   ph : Phys := { size := 0, pages := #[], infos := [] }
   slots : Array Slot := #[{}, {}, {}, {}]
 
@@ -108,9 +108,9 @@ def step (s : St) (toks : List String) : St × List String :=
   | "case" :: id :: _ => ({}, ["== case " ++ id])
   | ["phys", n] => ({ s with size := n.toInt?.getD 0, pages := #[], hdrs := [] }, [])
   | "pg" :: rest => ({ s with pages := s.pages.push (parsePage rest) }, [])
-  | ["hdrpk", ser, _, h] =>
+  | ["hdrpk", _, _, bos, h] =>
       match fromHex h with
-      | some l => ({ s with hdrs := s.hdrs ++ [(((ser.drop 7).toString.toInt?.getD 0), ByteArray.mk l.toArray)] }, [])
+      | some l => ({ s with hdrs := s.hdrs ++ [(((bos.drop 4).toString.toInt?.getD 0), ByteArray.mk l.toArray)] }, [])
       | none => (s, ["bad-hex"])
   | ["build"] =>
       let (infos, bad) := buildInfos s.hdrs
